@@ -1,6 +1,6 @@
 """C12 - closing and reopening a project loses nothing it promised to keep.
 
-(a) Differential exploration: every history (depth<=d over 21 operations) is executed twice on
+(a) Differential exploration: every history (depth<=d over 22 operations) is executed twice on
 the real implementation - once straight through and once with close()+reopen inserted at one
 (thorough: one or two) of every possible position - and then driven through the same probes
 (undo everything, redo everything; selective undo of the oldest change).  The runs must agree
@@ -19,7 +19,7 @@ from ..core import Check, h8
 from ..fsutil import DIR, Scratch, show, snap
 from ..histops import TEXTS, apply_op, view_history, view_objectdb
 
-INIT = {"m.py": TEXTS["v1"].encode(), "c.py": b"a = 1\r\nb = 2\r\n", "d": DIR, "d/x.py": b"X = 1\n"}
+INIT = {"junk.pyc": b"junk\n", "m.py": TEXTS["v1"].encode(), "c.py": b"a = 1\r\nb = 2\r\n", "d": DIR, "d/x.py": b"X = 1\n"}
 
 OPS = [
     ("W", "m.py", "v2"), ("W", "m.py", "uni"), ("W", "c.py", "a = 1\nb = 3\n"), ("W", "m.py", "empty"), ("W", "d/x.py", "nonl"),
@@ -30,6 +30,8 @@ OPS = [
     ("MV", "n.py", "n2.py"), ("CD", "", "n.py"),
     # an explicit save in the middle of a session
     ("sync",),
+    # a change that touches only a resource matched by the default ignore patterns (it is performed, clears redo, is not recorded)
+    ("W", "junk.pyc", "x\n"),
 ]
 OPS_SMALL = [OPS[i] for i in (0, 2, 5, 6, 7, 8, 9, 12, 13, 15, 16)]
 
@@ -110,7 +112,7 @@ def execute(scratch, ops, reopen_at, probe):
 
 # ---------------------------------------------------------------------------- serializer
 ATOMS = [0, 1, -1, True, None, "", "a", "1", "\u0663", "t", "items", "v", "$"]
-KEY_ATOMS = [0, 1, True, None, "", "a", "1", "\u0663", "t", "items", "v", "00"]
+KEY_ATOMS = [0, 1, True, None, "", "a", "1", "\u0663", "t", "items", "v", "00", "-1", "+0", " 3", "1_0"]
 
 
 def typed(v):
@@ -177,7 +179,7 @@ def keys(n, memo={}):
 class C12(Check):
     pid = "C12"
     level = "model_checking"
-    rule = ("(a) states are event histories: all sequences of 21 operations (content edits incl. CRLF/unicode/empty/no-final-newline, "
+    rule = ("(a) states are event histories: all sequences of 22 operations (content edits incl. CRLF/unicode/empty/no-final-newline, "
             "create file/folder, file and folder moves, removal, nested change set, undo, redo, module analysis) to depth d; each "
             "feasible sequence is replayed on the real implementation without and with close()+reopen inserted at every position "
             "(thorough: also every pair of positions), followed by two probes (undo-all/redo-all, selective undo/redo of the oldest "
